@@ -25,6 +25,15 @@ mod rng;
 mod tree;
 
 fn main() {
+    // Deep trees (e.g. built by a looping parser before the step budget stops it) are dropped
+    // recursively by the runtime's own types: give the worker a large stack (virtual memory only).
+    let h = std::thread::Builder::new().stack_size(512 << 20).spawn(real_main).expect("spawn worker thread");
+    if h.join().is_err() {
+        std::process::exit(101);
+    }
+}
+
+fn real_main() {
     let args: Vec<String> = std::env::args().skip(1).collect();
     if args.is_empty() {
         eprintln!("usage: vh <worker> [--prop Cxx] [--seed N] [--shard i] [--nshards n] [--tier quick|thorough] [--out file] [--replay file]");
